@@ -8,6 +8,8 @@ mod c04;
 mod c07;
 mod c12;
 mod c17;
+mod c09;
+mod c20;
 
 fn main() {
     let args: Vec<String> = std::env::args().collect();
@@ -26,6 +28,8 @@ fn main() {
             "C07" => c07::search(seed, &budget, thorough),
             "C12" => c12::search(seed, &budget, thorough),
             "C17" => c17::search(seed, &budget, thorough),
+            "C09" => c09::search(seed, &budget, thorough),
+            "C20" => c20::search(seed, &budget, thorough),
             _ => { println!("NOORACLE"); return; }
         };
         match res {
@@ -41,6 +45,8 @@ fn main() {
             "C07" => c07::run(&input),
             "C12" => c12::run(&input),
             "C17" => c17::run(&input),
+            "C09" => c09::run(&input),
+            "C20" => c20::run(&input),
             _ => Err("no oracle".to_string()),
         };
         match r {
